@@ -40,7 +40,7 @@ TWINS = {
 
 # batches that are wired into checks (a batch under construction is simply not listed here yet)
 READY = ['core', 'eslice', 'op_eval', 'cfi_lookup', 'cfi_uctx', 'cfi_uctx_link', 'line_hdr', 'attrs', 'units', 'dwarf_ranges', 'index', 'relocate',
-         'conv', 'filter', 'wcore', 'wreloc', 'wop', 'wlists', 'wunit', 'wunit_layout', 'wcfi', 'wline', 'wline_insn', 'leb', 'macros', 'names', 'bases', 'wabbrev', 'filter_reserve', 'wline_prog', 'conv_attrs', 'conv_expr', 'wlists_add', 'wunit_tree', 'dwp', 'wunit_table', 'conv_line']
+         'conv', 'filter', 'wcore', 'wreloc', 'wop', 'wlists', 'wunit', 'wunit_layout', 'wcfi', 'wline', 'wline_insn', 'leb', 'macros', 'names', 'bases', 'wabbrev', 'filter_reserve', 'wline_prog', 'conv_attrs', 'conv_expr', 'wlists_add', 'wunit_tree', 'dwp', 'wunit_table', 'conv_line', 'wcfi_table']
 # batch -> batches whose items it re-verifies completely (so the smaller one need not run as well)
 SUPERSEDES = {'wline_prog': ['wline_insn'], 'op_eval': ['op'], 'dwarf_ranges': ['lists'], 'cfi_uctx_link': ['cfi_unwind'], 'line_hdr': ['line'], 'cfi_lookup': ['cfi_entries']}
 # tags that only quote another property's vocabulary inside a batch (not obligations of that property)
@@ -69,7 +69,7 @@ ND = {
     'C12': 'ConvertUnit::{convert, convert_attributes, read_entry, add_entry} (that every attribute is fed through convert_attribute_value, decided in batch conv_attrs, and stored under the same name), the two loops of Expression::from (operation order, the offsets table; the per-operation match is decided in batch conv_expr), ConvertLineProgram::{new, convert_row, convert_file, read_sequence, convert} (the tombstone / pending-address discipline is decided in batch conv_line; the content of a converted Row and finding F11 are not), idempotence '
            'of a second conversion, corpus round trips.',
     'C13': 'LineProgram::write header/tables/FileInfo emission and the two length patches (closure + IndexMap; only a syntactic check that they use the program\'s own encoding), add_file/add_directory identity (IndexMap).',
-    'C14': 'CIE de-duplication (IndexSet), whole-table round trip.',
+    'C14': 'that the derived Eq/Hash of CommonInformationEntry is field-wise equality (CIE de-duplication is decided in batch wcfi_table over a model of IndexSet::insert_full), FrameTable::default, the partial section after an Err, whole-table round trip.',
     'C15': 'Expression::write body (iterator adapters: assumed contract), evaluation equivalence (follows from decode equality).',
     'C16': 'RangeListTable::get / LocationListTable::get (IndexSet indexing; add is decided in batch wlists_add over a model of IndexSet::insert_full), end-to-end attr_ranges round trip.',
     'C17': 'NameBucketIter/NameHashIter beyond batch index, case_folding_djb_hash, name_string, DwarfPackage::load/from_sections and loader wiring (closures; the assembly DwarfPackage::{sections, cu_sections, tu_sections, find_cu, find_tu} and Section::dwp_range are decided in batch dwp), distinctness of a row\'s section identifiers (an input property), dwp corpus.',
